@@ -556,4 +556,8 @@ def run(P, R, tier):
     rules.va_list_once(P, R, 'C18.MPT.7')
     # the growing buffer a long message is formatted into takes "exactly as long as the room" for "too long"
     rules.snprintf_fit(P, R, 'C18.MPT.8', [f for f in P.fns.values() if not f.unit.startswith('tests/')])
+    # facilities are found by name in a set: a comparator that takes a name for equal to every name it is a prefix of
+    # merges "iauth" with "iauth_class"
+    from . import c19 as _c19
+    _c19.string_comparators_reach_the_end(P, R, 'C18.TAB.9')
     return EXPLANATION, ASSUMPTIONS
